@@ -40,9 +40,14 @@ func (fm *coordinator) NotifyFlush() {
 }
 
 func (fm *coordinator) Flush() {
-	if t := fm.getTarget(); t != nil {
-		t.Flush()
+	t := fm.getTarget()
+	if _, unregistered := t.(noopFlusher); unregistered || t == nil {
+		// Nothing has registered yet, so nothing can have been accepted: the flush is complete as it stands.
+		// Whoever waits for it must still be told, or a Flush that races the registration is never answered.
+		fm.NotifyFlush()
+		return
 	}
+	t.Flush()
 }
 
 func (fm *coordinator) WaitForFlush() {
